@@ -281,9 +281,11 @@ def ob_dec(tier):
                 for e, v in enumerate(vals):
                     b = bs[e * width:(e + 1) * width]
                     if tc == "IU2":
-                        want = z3.Concat(b[0], b[1])
-                        claim = (v[0] == "u") and v[1] == want
-                        if v[0] != "u":
+                        want = z3.ZeroExt(48, z3.Concat(b[0], b[1]))
+                        if v[0] in "ui" and v[1].size() <= 64:
+                            ext = z3.ZeroExt if v[0] == "u" else z3.SignExt
+                            claim = (ext(64 - v[1].size(), v[1]) if v[1].size() < 64 else v[1]) == want  # equal as integers
+                        else:
                             claim = z3.BoolVal(False)
                     else:
                         wr = z3.fpBVToFP(z3.Concat(*b[:4]), num.F32)
@@ -315,7 +317,7 @@ def ob_dec(tier):
             got = A.parse_data(raw, tc)
             if tc == "IU2":
                 want = np.frombuffer(raw, ">u2")
-                same = np.array_equal(np.asarray(got).astype("uint16"), want.astype("uint16"))
+                same = [int(v) for v in np.asarray(got).ravel()] == [int(v) for v in want]  # equal as integers (no cast that could mask a sign)
             else:
                 g = np.asarray(got).astype("complex64")
                 w = np.frombuffer(raw, ">f4").astype("float32")
@@ -365,9 +367,17 @@ def validate_stubs():
             else:
                 assert g == w, ("proxy/numpy mismatch", re_, im, hex(g), hex(w))
         checked += 1
-    for x in (0, 1, 255, 256, 65535, 0x1234):
+    # integer samples: proxy execution of the real function == real execution of the real function (whatever dtype it uses)
+    for x in (0, 1, 255, 256, 65535, 0x1234, 0x8000):
         raw = struct.pack(">H", x)
-        assert int(np.asarray(A.parse_data(raw, "IU2"))[0]) == x
+        real = np.asarray(A.parse_data(raw, "IU2"))
+        A.np = num.NPShim()
+        try:
+            prox = A.parse_data(bvars[:2], "IU2").values()[0]
+        finally:
+            A.np = orig
+        got = num.concrete(prox, list(zip(bvars[:2], raw)))[0]
+        assert got == int(real[0]) % (1 << (8 * real.dtype.itemsize)), ("proxy/numpy mismatch", x, got, real)
         checked += 1
     # stub stack raises like numpy
     try:
